@@ -300,7 +300,8 @@ Proof.
 Qed.
 
 (* ================= unbind_releases ================= *)
-Definition AInv (s : st) : Prop := forall x, zmem x (dead s) = true -> tfind x (table s) = None.
+Definition ainv (t : list (Z * nat)) (d : list Z) : Prop := forall x, zmem x d = true -> tfind x t = None.
+Definition AInv (s : st) : Prop := ainv (table s) (dead s).
 
 Lemma bind_table_other c x y t : y <> key c x -> tfind y (bind_table c x t) = tfind y t.
 Proof.
@@ -311,18 +312,31 @@ Proof.
       rewrite tfind_tset; destruct (Z.eqb_spec (key c x) y); auto; congruence.
 Qed.
 
+Lemma ainv_bind c x t d : f_table c = TPerSsrc -> ainv t d -> ainv (bind_table c x t) (zremove x d).
+Proof.
+  intros HT I y Hy. rewrite zmem_zremove in Hy. apply andb_true_iff in Hy. destruct Hy as [N Hy].
+  rewrite bind_table_other; auto. unfold key; rewrite HT. destruct (Z.eqb_spec y x); [discriminate|auto].
+Qed.
+
+Lemma ainv_unbind c x t d : f_table c = TPerSsrc -> f_unbind c = true ->
+  ainv t d -> ainv (unbind_table c x t) (x :: zremove x d).
+Proof.
+  intros HT HU I y Hy. unfold unbind_table. rewrite HU, HT. rewrite tfind_tremove.
+  destruct (Z.eqb_spec x y); auto. apply I.
+  rewrite zmem_cons, zmem_zremove in Hy. destruct (Z.eqb_spec y x); [congruence|]. cbn in Hy. auto.
+Qed.
+
+Lemma ainv_bump k t d : ainv t d -> ainv (tbump k t) d.
+Proof. intros I y Hy. apply tfind_tbump_none; auto. Qed.
+
 Lemma td_ainv c s l s' : f_table c = TPerSsrc -> f_unbind c = true ->
   AInv s -> step c s l = Some s' -> AInv s'.
 Proof.
   intros HT HU I H. apply step_td in H. unfold AInv in *.
-  assert (K : forall x, key c x = x) by (intros; unfold key; rewrite HT; auto).
   destruct l as [t [| |x|x|x|]|t|i|i|i|i]; destruct H as [-> ->]; auto.
-  - intros y Hy. rewrite zmem_zremove in Hy. apply andb_true_iff in Hy. destruct Hy as [N Hy].
-    rewrite bind_table_other; auto. rewrite K. destruct (Z.eqb_spec y x); [discriminate|auto].
-  - intros y Hy. unfold unbind_table. rewrite HU, HT. rewrite tfind_tremove.
-    destruct (Z.eqb_spec x y); auto. apply I.
-    rewrite zmem_cons, zmem_zremove in Hy. destruct (Z.eqb_spec y x); [congruence|]. cbn in Hy. auto.
-  - intros y Hy. apply tfind_tbump_none; auto.
+  - apply ainv_bind; auto.
+  - apply ainv_unbind; auto.
+  - apply ainv_bump; auto.
 Qed.
 
 Lemma ainv_init c : f_table c = TPerSsrc -> AInv (init c).
@@ -345,6 +359,266 @@ Proof.
   intros HS HT _ _ H. apply step_td in H. destruct H as [-> _].
   unfold rebind_safe in HS. unfold bind_table.
   destruct (f_table c); [congruence| |]; rewrite HS, tfind_tset, Z.eqb_refl; reflexivity.
+Qed.
+
+(* ================= a predicate on every loop state ================= *)
+Section LoopsAll.
+  Variable Q : lstate -> Prop.
+  Definition lall (ls : list (nat * lstate)) : Prop := Forall (fun e => Q (snd e)) ls.
+
+  Lemma lall_lset i l ls : lall ls -> Q l -> lall (lset i l ls).
+  Proof.
+    unfold lall. intros H Hl. induction H as [|[j l0] tl H0 H IH]; cbn [lset]; [constructor|].
+    destruct (Nat.eqb j i); constructor; auto.
+  Qed.
+
+  Lemma lall_ldel i ls : lall ls -> lall (ldel i ls).
+  Proof.
+    unfold lall. intros H. induction H as [|[j l0] tl H0 H IH]; cbn [ldel]; [constructor|].
+    destruct (Nat.eqb j i); auto.
+  Qed.
+
+  Lemma lall_lfind i ls l : lall ls -> lfind i ls = Some l -> Q l.
+  Proof.
+    unfold lall. intros H. induction H as [|[j l0] tl H0 H IH]; cbn [lfind]; [discriminate|].
+    destruct (Nat.eqb j i); auto. intros E; inversion E; subst; auto.
+  Qed.
+
+  Lemma lall_app ls ls' : lall ls -> lall ls' -> lall (ls ++ ls').
+  Proof. unfold lall. intros. apply Forall_app; auto. Qed.
+End LoopsAll.
+
+(* ================= unbind_stops ================= *)
+Definition pend_ok (d : list Z) (p : list (Z * bool)) : Prop :=
+  forall x, In (x, false) p -> zmem x d = false.
+Definition lst_ok (d : list Z) (l : lstate) : Prop :=
+  match l with LIdle => True | LWrite p => pend_ok d p end.
+
+Lemma pend_ok_mono d d' p : (forall y, zmem y d' = true -> zmem y d = true) -> pend_ok d p -> pend_ok d' p.
+Proof.
+  intros M P x Hx. specialize (P x Hx). destruct (zmem x d') eqn:E; auto. apply M in E. congruence.
+Qed.
+
+Lemma lst_ok_mono d d' l : (forall y, zmem y d' = true -> zmem y d = true) -> lst_ok d l -> lst_ok d' l.
+Proof. destruct l; cbn; auto. apply pend_ok_mono. Qed.
+
+Lemma lall_ok_mono d d' ls : (forall y, zmem y d' = true -> zmem y d = true) ->
+  lall (lst_ok d) ls -> lall (lst_ok d') ls.
+Proof. intros M H. unfold lall in *. eapply Forall_impl; [|exact H]. intros e. apply lst_ok_mono; auto. Qed.
+
+Lemma zremove_sub x d y : zmem y (zremove x d) = true -> zmem y d = true.
+Proof. rewrite zmem_zremove. intros H; apply andb_true_iff in H; tauto. Qed.
+
+Lemma pend_ok_flag x d p : pend_ok d p -> pend_ok (x :: zremove x d) (flag x p).
+Proof.
+  intros P y Hy. unfold flag in Hy. apply in_map_iff in Hy. destruct Hy as ([z fl] & E & Hin).
+  cbn [fst] in E. destruct (Z.eqb_spec z x); inversion E; subst.
+  rewrite zmem_cons, zmem_zremove. destruct (Z.eqb_spec y x); [congruence|]. cbn. apply P; auto.
+Qed.
+
+Lemma pend_ok_app d p q : pend_ok d p -> pend_ok d q -> pend_ok d (p ++ q).
+Proof. intros P Q x Hx. apply in_app_or in Hx. destruct Hx; auto. Qed.
+
+Lemma pend_ok_single d x fl : (fl = false -> zmem x d = false) -> pend_ok d [(x, fl)].
+Proof. intros H y [E|[]]. inversion E; subst; auto. Qed.
+
+Lemma pend_ok_tail d e p : pend_ok d (e :: p) -> pend_ok d p.
+Proof. intros P x Hx. apply P. right; auto. Qed.
+
+Lemma lst_ok_norm d p : pend_ok d p -> lst_ok d (norm p).
+Proof. destruct p; cbn; auto. Qed.
+
+(* sends that can park are harmless only if what is received is not written *)
+Definition park_free (c : cfg) : bool :=
+  negb (f_recv_emits c) ||
+  match f_chan c with ChBufNB | ChNone => true | _ => false end ||
+  match f_site c with SendNever => true | _ => false end.
+
+Record UInv (c : cfg) (s : st) : Prop := {
+  u_tab : f_table c = TPerSsrc -> AInv s;
+  u_nn : forall x, zmem x (dead s) = true -> 0 <= x;
+  u_loops : lall (lst_ok (dead s)) (loops s);
+  u_chan : f_recv_emits c = true -> pend_ok (dead s) (chanq s);
+  u_park : f_recv_emits c = true -> forall t x b, bfind t (blocked s) <> Some (WSend x b);
+  u_late : late_unbind s = []
+}.
+
+Lemma uinv_blocked c s b' : UInv c s ->
+  (f_recv_emits c = true -> forall t x b, bfind t b' <> Some (WSend x b)) ->
+  UInv c (set_blocked s b').
+Proof. intros [I1 I2 I3 I4 I5 I6] H. constructor; auto. Qed.
+
+Lemma do_send_uinv c s x s' : UInv c s -> (f_recv_emits c = true -> zmem x (dead s) = false) ->
+  do_send c s x = Some s' -> UInv c s'.
+Proof.
+  intros I Hx E. destruct I as [I1 I2 I3 I4 I5 I6]. dsend E.
+  - constructor; auto.
+  - constructor; auto. cbn. apply lall_lset; auto. cbn. apply pend_ok_single; auto.
+  - constructor; auto. cbn. intros R. apply pend_ok_app; auto. apply pend_ok_single; auto.
+Qed.
+
+Lemma do_send_none c s x : do_send c s x = None ->
+  match f_chan c with ChBufNB | ChNone => False | _ => True end.
+Proof.
+  unfold do_send. destruct (f_chan c); auto; try discriminate. destruct (closed s); discriminate.
+Qed.
+
+Lemma sop_uinv c s t x b : park_free c = true -> f_site c <> SendNever ->
+  UInv c s -> (f_recv_emits c = true -> zmem x (dead s) = false) -> UInv c (send_or_park c s t x b).
+Proof.
+  intros PF NS I Hx. unfold send_or_park. destruct (do_send c s x) eqn:E.
+  - eapply do_send_uinv; eauto.
+  - apply uinv_blocked; auto. intros R. exfalso. apply do_send_none in E.
+    unfold park_free in PF. rewrite R in PF. cbn in PF.
+    destruct (f_chan c); auto; destruct (f_site c); auto; discriminate.
+Qed.
+
+Definition lab_ok (d : list Z) (l : label) : bool :=
+  match l with
+  | Call _ (OUnbind x) => 0 <=? x
+  | Call _ (OTraffic x) => negb (zmem x d)
+  | _ => true
+  end.
+
+Lemma unbind_safe_unbind c : unbind_safe c = true -> f_table c = TPerSsrc -> f_unbind c = true.
+Proof. unfold unbind_safe. intros H HT. rewrite HT in H. auto. Qed.
+
+Lemma step_uinv c : unbind_safe c = true -> park_free c = true ->
+  forall s l s', UInv c s -> lab_ok (dead s) l = true -> step c s l = Some s' -> UInv c s'.
+Proof.
+  intros HS PF s l s' I LO H.
+  destruct l as [t o|t|i|i|i|i]; cbn [step] in H.
+  - destruct (bfind t (blocked s)) eqn:Bt; [discriminate|]. inversion H; subst; clear H.
+    destruct o; cbn [call] in *.
+    + (* BindW *)
+      destruct (f_loop c); auto. destruct (closed s); auto.
+      destruct I as [I1 I2 I3 I4 I5 I6]. constructor; auto. cbn.
+      apply lall_app; auto. constructor; cbn; auto.
+    + auto.
+    + (* Bind x *)
+      assert (I' : UInv c (mkSt (closed s) (close_ret s) (loops s) (next_lid s) (chanq s) (bind_table c x (table s))
+                       (zremove x (dead s)) (blocked s) (panicked s) (emitted s) (late_close s) (late_unbind s))).
+      { destruct I as [I1 I2 I3 I4 I5 I6]. constructor; cbn; auto.
+        - intros HT. apply ainv_bind; auto. apply I1; auto.
+        - intros y Hy. apply zremove_sub in Hy. auto.
+        - eapply lall_ok_mono; [|exact I3]. intros y. apply zremove_sub.
+        - intros R. eapply pend_ok_mono; [|apply I4; auto]. intros y. apply zremove_sub. }
+      destruct (f_site c) eqn:FS; auto. apply sop_uinv; auto; [congruence|].
+      intros _. cbn [dead]. rewrite zmem_zremove, Z.eqb_refl. reflexivity.
+    + (* Unbind x *)
+      cbn [lab_ok] in LO. apply Z.leb_le in LO.
+      destruct I as [I1 I2 I3 I4 I5 I6]. constructor; cbn; auto.
+      * intros HT. apply ainv_unbind; auto using unbind_safe_unbind. apply I1; auto.
+      * intros y Hy. fold (zremove x (dead s)) in Hy. fold (zmem y (zremove x (dead s))) in Hy.
+        destruct (Z.eqb_spec y x); [lia|]. cbn in Hy. apply zremove_sub in Hy. auto.
+      * unfold lall in *. apply Forall_map. eapply Forall_impl; [|exact I3].
+        intros [j [|p]]; cbn; auto. apply pend_ok_flag.
+      * intros R. apply pend_ok_flag; auto.
+    + (* Traffic x *)
+      cbn [lab_ok] in LO. apply negb_true_iff in LO.
+      assert (I' : UInv c (set_table s (tbump (key c x) (table s)))).
+      { destruct I as [I1 I2 I3 I4 I5 I6]. constructor; cbn; auto.
+        intros HT. apply ainv_bump. apply I1; auto. }
+      destruct (f_site c) eqn:FS; auto. apply sop_uinv; auto. congruence.
+    + (* Close *)
+      destruct I as [I1 I2 I3 I4 I5 I6].
+      destruct (match f_close c with CloseIdem => false | CloseRaw => closed s end); [constructor; auto|].
+      destruct (_ && _); constructor; cbn; auto.
+      intros R u y b. destruct (Nat.eqb t u); [discriminate|auto].
+  - unfold resume in H. destruct (bfind t (blocked s)) as [[x b|]|] eqn:Bt; [| |discriminate].
+    + destruct (do_send _ _ _) eqn:E; inversion H; subst; clear H.
+      destruct (f_recv_emits c) eqn:R.
+      * exfalso. eapply (u_park _ _ I); eauto.
+      * eapply do_send_uinv; [| |exact E]; [|cbn; rewrite R; discriminate].
+        apply uinv_blocked; auto. rewrite R; discriminate.
+    + destruct (loops s) eqn:EL; inversion H; subst; clear H.
+      destruct I as [I1 I2 I3 I4 I5 I6]. constructor; cbn; auto.
+      * constructor.
+      * intros R u y b Hu. apply bfind_bdel_some in Hu. eapply I5; eauto.
+  - destruct (lfind i (loops s)) as [[|p]|] eqn:EL; inversion H; subst; clear H.
+    destruct I as [I1 I2 I3 I4 I5 I6]. constructor; cbn; auto.
+    apply lall_lset; auto. apply lst_ok_norm.
+    unfold snapshot. destruct (f_table c) eqn:HT.
+    + apply pend_ok_single. intros _. destruct (zmem (-1) (dead s)) eqn:E; auto. apply I2 in E. lia.
+    + intros y Hy. apply in_map_iff in Hy. destruct Hy as ([z n] & E & Hin). cbn [fst] in E. inversion E; subst.
+      apply filter_In in Hin. destruct Hin as [Hin _]. apply tfind_in in Hin.
+      destruct (zmem y (dead s)) eqn:EZ; auto. apply I1 in EZ; auto. contradiction.
+    + apply pend_ok_single. intros _. destruct (zmem (-1) (dead s)) eqn:E; auto. apply I2 in E. lia.
+  - destruct (lfind i (loops s)) as [[|[|[x fl] rest]]|] eqn:EL; inversion H; subst; clear H.
+    destruct I as [I1 I2 I3 I4 I5 I6].
+    pose proof (lall_lfind _ _ _ _ I3 EL) as P. cbn in P.
+    constructor; cbn; auto.
+    + apply lall_lset; auto. apply lst_ok_norm. eapply pend_ok_tail; eauto.
+    + destruct fl; cbn; [rewrite andb_false_r; auto|]. rewrite (P x); [auto|left; auto].
+  - destruct (lfind i (loops s)) as [[|p]|] eqn:EL; try discriminate.
+    destruct (chanq s) as [|[x fl] q] eqn:EQ; inversion H; subst; clear H.
+    destruct I as [I1 I2 I3 I4 I5 I6]. rewrite EQ in I4. constructor; cbn; auto.
+    + destruct (f_recv_emits c) eqn:R; auto. apply lall_lset; auto. cbn.
+      apply pend_ok_single. intros ->. apply I4; auto. left; auto.
+    + intros R. eapply pend_ok_tail; eauto.
+  - destruct (lfind i (loops s)) as [[|p]|] eqn:EL; try discriminate.
+    destruct (closed s); inversion H; subst; clear H.
+    destruct I as [I1 I2 I3 I4 I5 I6]. constructor; cbn; auto. apply lall_ldel; auto.
+Qed.
+
+(* the usage discipline of a trace: SSRCs passed to Unbind are not negative (the model uses -1 for the
+   transport-wide report of an interceptor without a per-stream table), and traffic flows only on streams
+   that are not unbound; [d] is the dead list of the state the trace starts in *)
+Fixpoint ops_ok (d : list Z) (tr : list label) : bool :=
+  match tr with
+  | [] => true
+  | Call t (OBind x) :: tl => ops_ok (zremove x d) tl
+  | Call t (OUnbind x) :: tl => (0 <=? x) && ops_ok (x :: zremove x d) tl
+  | Call t (OTraffic x) :: tl => negb (zmem x d) && ops_ok d tl
+  | _ :: tl => ops_ok d tl
+  end.
+
+Lemma run_uinv c : unbind_safe c = true -> park_free c = true ->
+  forall tr s s', UInv c s -> ops_ok (dead s) tr = true -> run c s tr = Some s' -> UInv c s'.
+Proof.
+  intros HS PF tr; induction tr as [|l tl IH]; intros s s' I OK HR; cbn [run] in HR.
+  - inversion HR; subst; auto.
+  - destruct (step c s l) as [s1|] eqn:E; [|discriminate].
+    pose proof (step_td c s l s1 E) as TD.
+    apply (IH s1 s'); auto.
+    + eapply step_uinv; eauto.
+      destruct l as [t [| |x|x|x|]|t|i|i|i|i]; cbn in OK |- *; auto;
+        apply andb_true_iff in OK; tauto.
+    + destruct l as [t [| |x|x|x|]|t|i|i|i|i]; destruct TD as [_ ->]; cbn in OK; auto;
+        apply andb_true_iff in OK; tauto.
+Qed.
+
+Lemma uinv_init c : UInv c (init c).
+Proof.
+  constructor; cbn; try discriminate; auto.
+  - destruct (f_loop c); repeat constructor.
+  - intros _ x [].
+Qed.
+
+(* NOTE: two hypotheses more than [unbind_safe]: see the comment on [ops_ok] and on [park_free].
+   Without [ops_ok]: pacing_cfg, trace Unbind 5; Traffic 5; LRecv 0; LEmit 0 (or Unbind (-1); LTick; LEmit for
+   any interceptor without a per-stream table).  Without [park_free]: a caller parked in the send of Bind x /
+   Traffic x is overtaken by Unbind x and its packet is written afterwards. *)
+Lemma unbind_stops c tr s : unbind_safe c = true -> park_free c = true -> ops_ok [] tr = true ->
+  run c (init c) tr = Some s -> late_unbind s = [].
+Proof.
+  intros HS PF OK HR. eapply u_late. eapply (run_uinv c HS PF tr (init c) s); auto. apply uinv_init.
+Qed.
+
+Lemma park_free_instances :
+  park_free nack_generator_cfg = true /\ park_free nack_responder_cfg = true /\
+  park_free report_receiver_cfg = true /\ park_free report_sender_cfg = true /\
+  park_free twcc_sender_cfg = true /\ park_free intervalpli_cfg = true /\
+  park_free packetdump_cfg = true /\ park_free pacing_cfg = true /\
+  park_free flexfec_cfg = true /\ park_free chain_cfg = true.
+Proof. repeat split; reflexivity. Qed.
+
+(* the statement without the usage discipline is false, even for an interceptor with safe_cfg *)
+Lemma unbind_stops_needs_ops_ok : exists tr s,
+  safe_cfg pacing_cfg = true /\ run pacing_cfg (init pacing_cfg) tr = Some s /\ late_unbind s <> [].
+Proof.
+  exists [Call 0 (OUnbind 5); Call 0 (OTraffic 5); LRecv 0; LEmit 0].
+  eexists. split; [reflexivity|]. split; [vm_compute; reflexivity|]. cbn. discriminate.
 Qed.
 
 (* ================= instances and refutations (concrete witness traces) ================= *)
